@@ -1028,3 +1028,85 @@ def rf124(run):
                           'crashes, the other interfaces work)' % (site, sorted(fl), ws, '' if same else '; the two sites use different fields'),
                           line=fn_.line)
     return n
+
+
+# ---------------------------------------------------------------------------------------------
+# RF140: scratch hard registers of a pattern are declared as early clobbers
+# ---------------------------------------------------------------------------------------------
+
+def rf140(run):
+    from lib import printexec as PE
+    rule = 'RF140'
+    run.rule(rule, 'x86-64: the hard registers a replacement string writes on its own — `hN` / `HN` fields, the implicit rdx:rax of '
+                   'cqo / F7-group multiply and divide, `B8+r imm32` — other than registers the pattern constrains an operand to, are '
+                   'reported by target_get_early_clobbered_hard_regs for the opcode (evaluated abstractly for every opcode).  The register '
+                   'allocator keeps a live value in rdx across `ldeq` otherwise, and the instruction overwrites it')
+    gen = run.tu('gen')
+    f = gen.func('target_get_early_clobbered_hard_regs')
+    run.functions_analysed.add(('gen', f.name))
+    g, rows = read_patterns(gen)
+    codes = dict(gen.enum('MIR_insn_code_t'))
+    hregs = dict(gen.enum_by_member('AX_HARD_REG')[1])
+    ax, cx, dx = hregs['AX_HARD_REG'], hregs['CX_HARD_REG'], hregs['DX_HARD_REG']
+    names = {ax: 'rax', cx: 'rcx', dx: 'rdx'}
+    nonvar = 0xffffffff
+    clob = {}
+
+    def clobbers(code):
+        if code in clob:
+            return clob[code]
+        ex = PE.PrintExec(gen, {}, {}, {})
+        env = {'insn->code': codes[code], 'code': codes[code]}
+        try:
+            ex.run(f.body, env)
+        except F.AnalysisBroken as e_:
+            raise F.AnalysisBroken('target_get_early_clobbered_hard_regs not executable for %s: %s' % (code, e_))
+        out = set()
+        for k_ in ('*hr1', '*hr2', 'hr1[0]', 'hr2[0]'):
+            v = env.get(k_)
+            if isinstance(v, int) and v in names:
+                out.add(v)
+        clob[code] = out
+        return out
+    n = 0
+    first = {}
+    for r in rows:
+        code = r['code']
+        if code not in codes:
+            continue
+        toks = pat_tokens(r['pat'])
+        if toks is None:
+            continue
+        constrained = {int(t[1:]) for t in toks if t.startswith('h')}
+        written = set()
+        for ins in insns_of(r['rep']):
+            body = [t for t in ins if t not in ('X', 'Y', 'Z')]
+            for t in body:
+                m = re.fullmatch(r'[hH]([0-9A-Fa-f]+)', t)
+                if m:
+                    written.add(int(m.group(1), 16))
+            if body and body[0] == '99':
+                written.add(dx)
+            if body and re.fullmatch(r'B[89A-F]', body[0]) and len(body) > 1 and not body[1].startswith('+'):
+                written.add(int(body[0][1], 16) - 8)
+            if len(body) > 1 and body[0] == 'F7' and body[1] in ('/4', '/5', '/6', '/7'):
+                written |= {ax, dx}
+        written &= {ax, cx, dx}
+        need = written - constrained
+        if not need:
+            continue
+        got = clobbers(code)
+        n += 1
+        ok = need <= got
+        run.ob(rule, (r['line'],), ok, {'opcode': code, 'pattern': r['pat'], 'scratch registers': sorted(names[x] for x in need),
+                                        'declared': sorted(names[x] for x in got)} if n % 25 == 1 or not ok else None)
+        if not ok and code not in first:
+            first[code] = (r, need - got)
+    for code, (r, miss) in first.items():
+        run.violation(rule, f, 'early clobbers of %s' % code, 'the pattern {%s, "%s", "%s…"} writes %s as scratch, but '
+                      'target_get_early_clobbered_hard_regs does not report it for %s: a value the allocator placed there stays "live" '
+                      'across the instruction and is overwritten' % (code, r['pat'], r['rep'][:50], ', '.join(names[x] for x in sorted(miss)), code),
+                      file='mir-gen-x86_64.c', line=r['line'])
+    if n < 30:
+        raise F.AnalysisBroken('RF140: only %d patterns with scratch hard registers' % n)
+    return n
